@@ -75,6 +75,20 @@ pub enum RejectionReason {
     KeyAlreadyExists,
 }
 
+#[cfg(feature = "cached_verif")]
+impl<Key, Value> CommandType<Key, Value>
+    where Key: Hash + Eq + Clone {
+    pub(crate) fn verif_describe(&self) -> String {
+        match self {
+            CommandType::Put(key_description, _) => format!("Put {} {}", key_description.id, key_description.weight),
+            CommandType::PutWithTTL(key_description, _, time_to_live) => format!("PutWithTTL {} {} {}", key_description.id, key_description.weight, time_to_live.as_nanos()),
+            CommandType::Delete(_) => "Delete".to_string(),
+            CommandType::UpdateWeight(key_id, weight) => format!("UpdateWeight {} {}", key_id, weight),
+            CommandType::Shutdown => "Shutdown".to_string(),
+        }
+    }
+}
+
 #[cfg(test)]
 mod tests {
     use std::time::Duration;
